@@ -2,7 +2,7 @@
    Statements about the RN instance of Model/Pbox.v (frechet_op), for any number of steps n,
    every selection of one point per focal step and every permutation coupling. *)
 From Coq Require Import Reals Lra List Permutation.
-From PUN Require Import Base.Num Base.Sort Model.Interval Model.Pbox Proofs.ListR Proofs.PboxWF Proofs.Frechet Proofs.Tight Proofs.Encl Model.ArrayOps Gen.GenKernels Proofs.Kernels Model.PboxArith Gen.GenGlue Proofs.Glue Proofs.Compose Proofs.ComposeOps Proofs.ComposeAll.
+From PUN Require Import Base.Num Base.Sort Model.Interval Model.Pbox Proofs.ListR Proofs.PboxWF Proofs.Frechet Proofs.Tight Proofs.Encl Model.ArrayOps Gen.GenKernels Proofs.Kernels Model.PboxArith Gen.GenGlue Proofs.Glue Proofs.Compose Proofs.ComposeOps Proofs.ComposeAll Model.PExpr Proofs.ComposeExpr.
 From Coq Require Import Lia.
 Import ListNotations.
 Open Scope R_scope.
@@ -207,5 +207,17 @@ Proof.
       eapply Permutation_trans; [exact Hs|]. apply perm_swap. }
     subst s. destruct i as [|[|i]]; cbn [nth]; try lia; lra.
 Qed.
+(* whole expressions (any depth): +, -, x, / under no dependence assumption, negation, operations with numbers.  `sample e` is the
+   expression computed outcome by outcome on the samples attached to the leaves; the same sample may feed several leaves (a variable
+   that occurs more than once), different leaves may depend on each other in any way *)
+Theorem C02_expression_sound steps plo phi (e : fexpr) r : (0 < steps)%nat -> leaves_ok steps e ->
+  peval RN steps plo phi (erase e) = Ok r -> snd_ steps r (sample e).
+Proof. intros Hs. exact (expression_sound steps plo phi Hs e r). Qed.
+Example C02_repeated_variable : let X := FLeaf [-1; 1] [0; 2] [3 / 2; -1 / 2] in
+  leaves_ok 2 (FBin Sub (FBin Mul X X) X) /\ sample (FBin Sub (FBin Mul X X) X) = [3 / 2 * (3 / 2) - 3 / 2; -1 / 2 * (-1 / 2) - -1 / 2].
+Proof. cbv zeta. cbn [leaves_ok sample map2]. pose proof C02_bounded_sample as (_ & B). cbn [fst snd] in B.
+  assert (LX : length [-1; 1] = 2%nat /\ length [0; 2] = 2%nat /\ bounds [-1; 1] [0; 2] [3 / 2; -1 / 2]) by (split; [reflexivity|split; [reflexivity|exact B]]).
+  split; [exact (conj (conj LX LX) LX)|reflexivity]. Qed.
 Print Assumptions C02_frechet_composes.
+Print Assumptions C02_expression_sound.
 Print Assumptions C02_operations_sound.
